@@ -102,7 +102,7 @@ def jac_cases(ctx, jobs, res, want_sensor_pred=True):
 def run(ctx: Ctx):
     n_defs, n_points = (24, 3) if ctx.tier == "quick" else (400, 6)
     ctx.translate("gen_layout")
-    ctx.prove("Props/C03.v")
+    ctx.prove("Props/C03.v", ["Props/C03_deriv.v"])
     ctx.make(["Model/GlueExec.vo"])
     ctx.trusted += [
         "translator tools/translate/gen_layout.py (shapes, loop ranges, index expressions, call orders of the three Jacobian methods; what Matrix.jacobian is applied to)",
@@ -124,7 +124,7 @@ def run(ctx: Ctx):
     elif bad:
         i0, c0 = bad[0]
         j, pi, tag = src[i0]
-        codes = {2: "un-flattened value differs from the implementation", 3: "un-flattened entries are not the by-name partial derivatives"}
+        codes = {2: "un-flattened value differs from the implementation", 3: "un-flattened entries are not sympy.diff's by-name partial derivatives", 4: "un-flattened entries are not the values of the verified symbolic derivative (Theory/Deriv.v)"}
         ctx.broken.append({"kind": "correspondence", "name": f"py_jacobian / sensor block on exported program ({tag}): {codes.get(c0, c0)}",
                            "detail": f"{len(bad)} of {len(checks)}; first: definition={jobs[j]['defn']} cse={jobs[j]['cse']} point={jobs[j]['points'][pi]}"})
     shapes = {}
